@@ -47,7 +47,11 @@ unsigned ir_budget; _Bool ir_yielded; _Bool ir_blocked[IR_NT];
 #define IR_TRAP() IR_ASSERT(0, "llvm.trap reached (DISPATCH_CLIENT_CRASH / DISPATCH_INTERNAL_CRASH / __builtin_trap)")
 #endif
 #define IR_UNREACHABLE() IR_ASSUME(0)
+#ifdef __CPROVER__
 #define IR_BAD_ICALL(fp) IR_ASSERT(0, "indirect call to an address that is no translated function of that signature")
+#else
+#define IR_BAD_ICALL(fp) do { __builtin_printf("BAD ICALL token %llu in %s\n", (unsigned long long)(fp), __func__); IR_ASSERT(0, "indirect call to an address that is no translated function of that signature"); } while (0)
+#endif
 #ifndef IR_VISIBLE
 #define IR_VISIBLE() ((void)0)
 #endif
